@@ -33,6 +33,8 @@ type c11Tree struct {
 	weightJ int
 	weightU []*TNode // unsigned branch on main[weightJ]
 	weightA int      // A holds main[1..weightA]
+	llOurs   []*TNode // long light fork: 14 blocks 100 ms apart on genesis (difficulty rises every block)
+	llTheirs []*TNode // long light fork: 75 blocks 15 s apart on genesis (minimal difficulty); heavier than llOurs only above height 14+51
 	invalid map[string]*TNode
 	badTx   [][]byte
 	idx     map[*TNode]int
@@ -165,6 +167,26 @@ func buildC11Tree(rng *hutil.Rng, nMain int, depths []int) *c11Tree {
 	t.file.BadTx = append(t.file.BadTx, rng.Bytes(120), []byte{1, 2, 3}, []byte{})
 	t.file.Invalid["garbage"] = rng.Bytes(300)
 	t.file.Invalid["truncated"] = t.main[t.forkK].Raw[:len(t.main[t.forkK].Raw)/2]
+	// long light fork (Proofs/Sync2Stuck.v, livelock 1): two branches on genesis, unsigned blocks without transactions.
+	// B's branch: 14 blocks 100 ms apart; A's branch: 75 blocks 15 s apart.  A's branch is heavier in total, but at
+	// height 14 + PARALLEL_BLOCKS_DOWNLOAD + 1 = 65 it is still lighter than B's tip; the control gives B only 13 blocks.
+	cur := w.genesis
+	for k := 0; k < 14; k++ {
+		cur = w.validBlock(cur, 0, 100, false)
+		t.llOurs = append(t.llOurs, cur)
+		t.add(cur)
+	}
+	cur = w.genesis
+	for k := 0; k < 75; k++ {
+		cur = w.validBlock(cur, 0, 15000, false)
+		t.llTheirs = append(t.llTheirs, cur)
+		t.add(cur)
+	}
+	oursCD, ctlCD := t.llOurs[13].Block.CumulativeDiff, t.llOurs[12].Block.CumulativeDiff
+	if !(t.llTheirs[64].Block.CumulativeDiff.Cmp(oursCD) <= 0 && t.llTheirs[74].Block.CumulativeDiff.Cmp(oursCD) > 0 &&
+		t.llTheirs[63].Block.CumulativeDiff.Cmp(ctlCD) > 0) {
+		panic("c11: the long light fork does not have the intended cumulative difficulties")
+	}
 	return t
 }
 
@@ -228,6 +250,10 @@ func (t *c11Tree) scenarios(tier string) []*Scen {
 		a := append(seq(t, K-d), t.ids(br)...)
 		add(&Scen{Name: fmt.Sprintf("fork-depth-%d", d), Kind: "pair", Shape: fmt.Sprintf("fork%d", d), A: a, B: seq(t, K), Ref: a, TimeoutMs: 25000 + 8000*d})
 	}
+	// the peer's branch overtakes ours only more than PARALLEL_BLOCKS_DOWNLOAD + 1 blocks above our height; control: it
+	// overtakes within that window
+	add(&Scen{Name: "long-light-fork", Kind: "pair", Shape: "longlight/hA=75/hB=14", A: t.ids(t.llTheirs), B: t.ids(t.llOurs), Ref: t.ids(t.llTheirs), TimeoutMs: 120000})
+	add(&Scen{Name: "long-light-control", Kind: "pair", Shape: "longlight/hA=75/hB=13", A: t.ids(t.llTheirs), B: t.ids(t.llOurs[:13]), Ref: t.ids(t.llTheirs), TimeoutMs: 120000})
 	if t.weightJ != 0 {
 		b := append(seq(t, t.weightJ), t.ids(t.weightU)...)
 		add(&Scen{Name: "heavier-by-stake-weight", Kind: "pair", Shape: fmt.Sprintf("weight/hA=%d/hB=%d", t.weightA, t.weightJ+3), A: seq(t, t.weightA), B: b, Ref: seq(t, t.weightA), TimeoutMs: 25000})
@@ -248,6 +274,13 @@ func (t *c11Tree) scenarios(tier string) []*Scen {
 		// STATS packets overtake each other (every broadcast is its own goroutine): an older announcement arrives last
 		add(&Scen{Name: "fake-stale-stats-last", Kind: "fake", Shape: fmt.Sprintf("genesis/N=%d+stale-stats", nMain), FakeChain: seq(t, nMain), Ref: seq(t, nMain),
 			FakeStale: t.idx[t.main[5]], Fault: "stale-stats", TimeoutMs: 40000})
+	}
+	if t.weightJ != 0 {
+		// a peer announces a higher and heavier chain, serves nothing and leaves; the honest peer A holds a chain that is
+		// heavier than B's but not higher (Proofs/Sync2Stuck.v, livelock 2)
+		b := append(seq(t, t.weightJ), t.ids(t.weightU)...)
+		add(&Scen{Name: "stale-target-peer-gone", Kind: "fake", Shape: fmt.Sprintf("weight/hA=%d/hB=%d+announce-and-leave", t.weightA, t.weightJ+3),
+			A: seq(t, t.weightA), B: b, Ref: seq(t, t.weightA), FakeChain: seq(t, nMain), Fault: "gone", Param: 300, TimeoutMs: 30000})
 	}
 	inv := map[string]string{}
 	names := []string{"bad-pow", "diff+1", "bad-sig-tx"}
